@@ -1,5 +1,8 @@
 """C04 - encoded bytes equal the independent AMQP 0-9-1 reference encoder."""
 import copy
+import datetime
+import decimal
+import struct
 
 from mc import alphabets as A
 from mc import corpus, lib, refcodec, spec_table, values
@@ -197,8 +200,28 @@ def check_misc(ctx):
 TABLE_OPS = ['add', 'nest-append', 'nest-set', 'replace', 'del', 'clear']
 
 
-def fresh_table():
+def fresh_table(kind='FRESH'):
+    if kind == 'FLAT':      # no container values: only leaves, one mutable
+        return {'b': bytearray(b'nonce-0'), 'k': 'v', 'n': 40000}
+    if kind == 'BLOBS':     # byte arrays at three depths
+        return {'a': [1, bytearray(b'el')], 'd': {'x': bytearray(b'in')},
+                'b': bytearray(b'top'), 'k': 'v'}
     return {'a': [1], 'd': {'x': 1}, 'k': 'v'}
+
+
+# in-place changes of byte-array leaves, and leaves that make the encode
+# fail (with four different exception types) followed by their repair in
+# place: the object is the same one throughout
+BLOB_OPS = ['blob-extend', 'blob-setitem', 'blob-clear']
+NESTED_BLOB_OPS = ['blob-extend', 'nest-blob-extend', 'nest-blob-setitem']
+POISONS = [decimal.Decimal('NaN'), 2 ** 64, '\ud800',
+           datetime.datetime(1969, 1, 1, tzinfo=datetime.timezone.utc),
+           b'bytes']
+POISON_OPS = []
+for _i in range(len(POISONS)):
+    for _where in ('top', 'list', 'dict'):
+        POISON_OPS += ['poison-%s-%d' % (_where, _i),
+                       'repair-%s-%d' % (_where, _i)]
 
 
 def apply_table_op(t, op):
@@ -214,6 +237,33 @@ def apply_table_op(t, op):
         del t['k']
     elif op == 'clear':
         t.clear()
+    elif op == 'blob-extend':
+        t['b'].extend(b'+1')
+    elif op == 'blob-setitem':
+        t['b'][0] = 0x7a
+    elif op == 'blob-clear':
+        del t['b'][:]
+    elif op == 'nest-blob-extend':
+        t['a'][1].extend(b'+1')
+    elif op == 'nest-blob-setitem':
+        t['d']['x'][0:1] = b'#'
+    elif op.startswith('poison-') or op.startswith('repair-'):
+        what, where, i = op.split('-')
+        bad = POISONS[int(i)]
+        if what == 'poison':
+            if where == 'top':
+                t['zz-bad'] = bad
+            elif where == 'list':
+                t['a'].append(bad)
+            else:
+                t['d']['zz-bad'] = bad
+        else:
+            if where == 'top':
+                del t['zz-bad']
+            elif where == 'list':
+                t['a'].pop()
+            else:
+                del t['d']['zz-bad']
 
 
 def reuse_steps_method(m):
@@ -228,6 +278,12 @@ def reuse_steps_method(m):
                 steps.append(('mut', idx, op))
             steps.append(('set', idx, 'FRESH'))
             steps.append(('mut', idx, 'nest-append'))
+            steps.append(('set', idx, 'FLAT'))
+            for op in BLOB_OPS:
+                steps.append(('mut', idx, op))
+            steps.append(('set', idx, 'BLOBS'))
+            for op in NESTED_BLOB_OPS + POISON_OPS:
+                steps.append(('mut', idx, op))
     return steps
 
 
@@ -246,8 +302,9 @@ def run_reuse_method(ctx, m, source, upto=None):
             break
         name = m.args[idx][0]
         if kind == 'set':
-            val = fresh_table() if isinstance(arg, str) and arg == 'FRESH' \
-                and m.args[idx][1] == 'table' else arg
+            val = fresh_table(arg) if isinstance(arg, str) and arg in (
+                'FRESH', 'FLAT', 'BLOBS') and m.args[idx][1] == 'table' \
+                else arg
             setattr(obj, name, copy.deepcopy(val))
             vec[idx] = copy.deepcopy(val)
         else:
@@ -264,7 +321,12 @@ def run_reuse_method(ctx, m, source, upto=None):
         fp = 'reuse|{}|{}|{}'.format(m.name, source, n)
         try:
             want, fields = refcodec.enc_method_frame(m, tuple(vec), 1)
-        except refcodec.RefError:
+        except (refcodec.RefError, UnicodeEncodeError, OverflowError,
+                struct.error, ValueError, TypeError):
+            try:        # not encodable (a poisoned leaf): the library's
+                p.frame.marshal(obj, 1)     # attempt is made, result unjudged
+            except Exception:  # noqa
+                pass
             continue
         try:
             got = p.frame.marshal(obj, 1)
@@ -294,6 +356,12 @@ def reuse_steps_header():
     steps.append(('newprops', None, None))
     steps.append(('set', 'headers', 'FRESH'))
     steps.append(('mut', 'headers', 'nest-append'))
+    steps.append(('set', 'headers', 'FLAT'))
+    for op in BLOB_OPS:
+        steps.append(('mut', 'headers', op))
+    steps.append(('set', 'headers', 'BLOBS'))
+    for op in NESTED_BLOB_OPS + POISON_OPS:
+        steps.append(('mut', 'headers', op))
     return steps
 
 
@@ -317,8 +385,8 @@ def run_reuse_header(ctx, source, upto=None):
             props = {'app_id': 'new', 'priority': 3}
             obj.properties = p.commands.Basic.Properties(**props)
         elif kind == 'set':
-            val = fresh_table() if isinstance(arg, str) and arg == 'FRESH' \
-                and name == 'headers' else arg
+            val = fresh_table(arg) if isinstance(arg, str) and arg in (
+                'FRESH', 'FLAT', 'BLOBS') and name == 'headers' else arg
             setattr(obj.properties, name, copy.deepcopy(val))
             if val is None:
                 props.pop(name, None)
@@ -335,7 +403,15 @@ def run_reuse_header(ctx, source, upto=None):
             'step': [kind, name, short(arg, 60)]})
         case = {'kind': 'reuse-header', 'source': source, 'upto': n}
         fp = 'reuse|header|{}|{}'.format(source, n)
-        want, fields = refcodec.enc_header_frame(size, props, 1)
+        try:
+            want, fields = refcodec.enc_header_frame(size, props, 1)
+        except (refcodec.RefError, UnicodeEncodeError, OverflowError,
+                struct.error, ValueError, TypeError):
+            try:        # not encodable (a poisoned leaf): the library's
+                p.frame.marshal(obj, 1)     # attempt is made, result unjudged
+            except Exception:  # noqa
+                pass
+            continue
         try:
             got = p.frame.marshal(obj, 1)
             ctx.calls()
